@@ -21,6 +21,7 @@
 (*   DoWhere where(col=[values]) / where(index={'<=':k})       1274-1319, 1115-1221     *)
 (*   DoBest  where_best(l,p,n=nb)                              1042-1094, 1223-1255     *)
 (*   DoRaw   raw_learners(x,'reward',l,p,span)  (an observation)  1321-1365, 1780-1784  *)
+(*   DoWhereI where(reward={op:c}) / where(index={op:k})  (ends the history) 1194-1221  *)
 (* Mode "ma": moving_average(values, span, weights) as a decision table, 61-87.         *)
 (*                                                                         *)
 (* Numbers: rationals are <<numerator, denominator>> (denominator > 0,     *)
@@ -39,12 +40,14 @@ CONSTANTS Mode,        \* "res" (Result histories) or "ma" (moving_average table
           TabFull,     \* subset of BOOLEAN: TRUE = the parameter tables hold every id of the grid
                        \* (an id without interaction rows = a triple whose evaluation failed)
           MaxOps,      \* calls per history
-          Ops,         \* subset of {"fin","where","best","raw"}
+          Ops,         \* subset of {"fin","where","wherei","best","raw"}
           FinNs,       \* n arguments of where_fin
           FinLPs,      \* <<l,p>> arguments of where_fin (<<<<>>,<<>>>> = where_fin's own default: no pairing)
           RawArgs,     \* <<x,l,p,span>> arguments of raw_learners
-          BestArgs,    \* <<l,p,n>> arguments of where_best
+          BestArgs,    \* <<l,p,n>> arguments of where_best (p = <<>>: p not given)
           WhereArgs,   \* <<column, set of abstract values>> or <<"index", k>>
+          WhereIArgs,  \* <<interaction column ("reward" | "index"), operator, value>>: where on an interaction column
+          Namings,     \* the names under which the binding may present the parameter columns (see below)
           MAVals, MAMaxLen, MASpans, MAWeights
 VARIABLES par, salt, ev, tab, full, hist, n, ma
 vars == <<par, salt, ev, tab, full, hist, n, ma>>
@@ -74,6 +77,21 @@ ColVal(c, t) ==
     [] c = "va" -> par.va[t[3]]
 (* a column choice is a sequence of columns (a single column = a sequence of one) *)
 Tup(cs, t) == [i \in DOMAIN cs |-> ColVal(cs[i], t)]
+
+(* THE MEANING OF A PARAMETER COLUMN DOES NOT DEPEND ON ITS NAME.  ea, eb, la, lb, va above are ROLES; *)
+(* the real tables may call them anything that is a legal column name: a naming is an injective map   *)
+(* from roles to strings that avoids the column names the four tables reserve.  Nothing in this spec  *)
+(* reads the naming, so every expectation is the same under every naming - including names that       *)
+(* contain or resemble the words of the API ('fold_index', 'indexes', 'environment_id2', 'learner',   *)
+(* 'full_names', 'x', 'p', 'span' ...), given as a string or as a one-element list.  The driver       *)
+(* presents every history under namings of `Namings` (printed once per TLC run by the ASSUME).        *)
+Roles == {"ea", "eb", "la", "lb", "va"}
+Reserved == {"environment_id", "learner_id", "evaluator_id", "index", "reward", "full_name"}
+NamingLegal(nm) == /\ DOMAIN nm = Roles
+                   /\ \A r \in Roles : nm[r] \notin Reserved /\ nm[r] # ""
+                   /\ \A r1, r2 \in Roles : nm[r1] = nm[r2] => r1 = r2
+ASSUME \A nm \in Namings : NamingLegal(nm)
+ASSUME PrintT(ToJson([namings |-> Namings]))
 
 (* ------------------------------------------------------------ rationals *)
 RAdd(a, b) == <<a[1]*b[2] + b[1]*a[2], a[2]*b[2]>>
@@ -156,8 +174,10 @@ RECURSIVE SumMeans(_,_,_)
 SumMeans(evf, G, nb) == IF G = {} THEN <<0, 1>> ELSE
    LET t == CHOOSE x \in G : TRUE IN RAdd(EvalMean(evf, t, nb), SumMeans(evf, G \ {t}, nb))
 Score(evf, G, nb) == LET s == SumMeans(evf, G, nb) IN <<s[1], s[2] * Cardinality(G)>>
-BestRec(evf, lc, pc, nb) ==
-  LET S1 == Pair(DOMAIN evf, <<"learner_id">>, <<"environment_id">>)
+(* p not given (<<>>): "defaults to full_p" (docstring 1234), i.e. 'environment_id'.                *)
+BestRec(evf, lc, pc0, nb) ==
+  LET pc == IF pc0 = <<>> THEN <<"environment_id">> ELSE pc0
+      S1 == Pair(DOMAIN evf, <<"learner_id">>, <<"environment_id">>)
       cell(t) == {u \in S1 : Tup(pc, u) = Tup(pc, t) /\ Tup(lc, u) = Tup(lc, t)}
       of(t, c) == {u \in cell(t) : u[2] = c}
       cands(t) == {u[2] : u \in cell(t)}
@@ -239,6 +259,19 @@ DoBest == /\ "best" \in Ops /\ DOMAIN ev # {}
                   /\ ev' = a /\ tab' = tb
                   /\ hist' = Append(hist, Step("best", b, a, {}, tb, full, FinFlags(ev, 0, IdLP[1], IdLP[2]), {}))
           /\ UNCHANGED <<par, salt, full, ma>>
+(* where(<interaction column>={op: value}) (filter_int 1194-1221): exactly the interaction rows that *)
+(* satisfy the condition; an evaluation may lose all its rows, and then (when every parameter row   *)
+(* of the input was referenced) its ids must leave the parameter tables unless other rows still     *)
+(* reference them.  The rows kept need not be a prefix 1..k, so this call ends the history.          *)
+Cmp(a, op, b) == CASE op = ">" -> a > b [] op = ">=" -> a >= b [] op = "<" -> a < b [] op = "<=" -> a <= b [] op = "=" -> a = b
+RowSat(w, t, i) == Cmp(IF w[1] = "reward" THEN Yv(t, i, salt) ELSE i, w[2], w[3])
+DoWhereI == /\ "wherei" \in Ops /\ DOMAIN ev # {}
+            /\ \E w \in WhereIArgs :
+                 LET rows == UNION {{<<t[1], t[2], t[3], i>> : i \in {j \in 1..ev[t] : RowSat(w, t, j)}} : t \in DOMAIN ev}
+                     kept == {t \in DOMAIN ev : \E i \in 1..ev[t] : RowSat(w, t, i)}
+                     a == [t \in kept |-> Cardinality({j \in 1..ev[t] : RowSat(w, t, j)})]
+                 IN hist' = Append(hist, Step("wherei", w, a, {}, IF full THEN Ref(a) ELSE tab, full, {}, rows))
+            /\ UNCHANGED <<par, salt, ev, tab, full, ma>>
 (* an observation: the Result is unchanged, the history ends *)
 DoRaw == /\ "raw" \in Ops /\ DOMAIN ev # {}
          /\ \E r \in RawArgs :
@@ -249,7 +282,7 @@ DoRaw == /\ "raw" \in Ops /\ DOMAIN ev # {}
 
 Next == \/ /\ Mode = "res" /\ n < MaxOps
            /\ \/ (n' = n + 1 /\ (DoFin \/ DoWhere \/ DoBest))
-              \/ (n' = MaxOps /\ DoRaw)
+              \/ (n' = MaxOps /\ (DoRaw \/ DoWhereI))
         \/ /\ Mode = "ma" /\ n = 0 /\ n' = 1 /\ UNCHANGED <<par, salt, ev, tab, full, hist, ma>>
 Spec == Init /\ [][Next]_vars
 
